@@ -322,16 +322,20 @@ end
 
 def occs (e : FExpr) : List (Pos × FExpr) := walk true true e
 
+/-- "a floating-point value": the operand is one or is computed from one -- some sub-expression of it has floating-point
+    type, whatever the type of the operators above it (`fint(d)`, `i + fint(2.5)`, `d < 0.5`, `y > 2.5 ? 0 : 1`) -/
+def hasFp (e : FExpr) : Bool := (occs e).any (fun pe => pe.2.isDouble)
+
 /-- "compares a clock with a floating-point value": any relational operator, either operand order -/
 def isCmpClockFp : FExpr → Bool
   | .node k _ _ [a, b] =>
     relKinds.contains k && !a.kindIs .kRATE && !b.kindIs .kRATE
-      && ((a.isClock && b.isDouble) || (a.isDouble && b.isClock))
+      && ((a.isClock && hasFp b) || (hasFp a && b.isClock))
   | _ => false
 
 /-- "assigns a non-hybrid clock or variable from a floating-point value" -/
 def isAssignFp : FExpr → Bool
-  | .node k _ _ [l, r] => k == .kASSIGN && !usesHybrid l && r.isDouble
+  | .node k _ _ [l, r] => k == .kASSIGN && !usesHybrid l && hasFp r
   | _ => false
 
 mutual
@@ -345,7 +349,7 @@ def updateElemsL : List FExpr → List FExpr
 end
 
 /-- "initialises a clock with a floating-point value" (a clock or an array of clocks; any element of the initialiser) -/
-def isInitFp (f : SymFlags) (init : FExpr) : Bool := f.clkS && (occs init).any (fun pe => pe.2.isDouble)
+def isInitFp (f : SymFlags) (init : FExpr) : Bool := f.clkS && hasFp init
 
 def nonHybridRate (e : FExpr) : Bool := e.kindIs .kRATE && !(FExpr.arg e.children 0).flags.symHyb
 
